@@ -35,10 +35,17 @@ impl RequestHandler<Completion> for CompletionHandler {
                 let mut line = "";
                 let mut nested_scope = None;
                 if let Some(source_file) = codegen.tree().files.get(path) {
+                    // The position is supplied by the client, so it may lie beyond the end of the file
+                    if source_line >= source_file.file.num_lines() {
+                        return Ok(None);
+                    }
                     line = source_file.file.source_line(source_line);
 
-                    // Only look at the line until the source_column
-                    if source_column <= line.len() && source_column > 0 {
+                    // Only look at the line until the source_column (which may not lie inside a multi-byte character)
+                    if source_column <= line.len()
+                        && source_column > 0
+                        && line.is_char_boundary(source_column - 1)
+                    {
                         let (line, suffix) = line.split_at(source_column - 1);
 
                         // Are we autocompleting a dot?
